@@ -609,6 +609,7 @@ def judge(cfg, specs, op, before, after):
     # entries of the tree being materialised (an operation without a tree argument materialises one of the earlier ones)
     bcontent = {(e[0], e[3]) for e in before if e[1] == "f"}
     for cur in ([op[1]] if op[1] is not None else _dedupe(specs)):
+        safe_paths = {collapse(p) for p, _k, _d in leaves(cur) if pathsafety.unsafe(p, ntfs, hfs) is None}
         for p, k, depth in leaves(cur):
             why = pathsafety.unsafe(p, ntfs, hfs)
             if why is None:
@@ -618,12 +619,15 @@ def judge(cfg, specs, op, before, after):
                 for e in after:
                     if e[1] == "f" and e[3] == body and (e[0], e[3]) not in bcontent:
                         return "unsafe-path(%s)" % why, "content of entry %r (%s) written to %r" % (p, k, e[0]), e[0]
-            elif k == "G":
+            elif collapse(p) and collapse(p) not in safe_paths:
+                # link targets / placeholders are not unique per entry: look where dulwich's path join puts the entry,
+                # unless a safe entry of the same tree legitimately lives there
                 cp = collapse(p)
-                rel = WT + b"/" + cp + b"/.git"
+                rel = WT + b"/" + cp + (b"/.git" if k == "G" else b"")
+                want = ("f", placeholder(cp)) if k == "G" else ("l", payload(p, k, depth))
                 for e in after:
-                    if e[0] == rel and e[1] == "f" and e[3] == placeholder(cp) and rel not in bpaths:
-                        return "unsafe-path(%s)" % why, "submodule placeholder of entry %r created at %r" % (p, rel), rel
+                    if e[0] == rel and (e[1], e[3]) == want and rel not in bpaths:
+                        return "unsafe-path(%s)" % why, "%s of entry %r created at %r" % ("submodule placeholder" if k == "G" else "symlink", p, rel), rel
     return None
 
 
